@@ -7,7 +7,7 @@ import vlib
 from vlib import Recorder, Report, b2l, call, exc_info, text
 
 ALPHA = '123456789ABCDEFGHJKLMNPQRSTUVWXYZabcdefghijkmnopqrstuvwxyz'
-NONALPHA = "0OIl+/ =_-!é"
+NONALPHA = "0OIl+/ =_-!é" + "".join(chr(ord(c) + k) for c in "1zAL" for k in (256, 512, 0x10000)) + "\u0131\uff11"
 
 
 def out_exc(e):
@@ -66,7 +66,8 @@ def drive(tier):
         n = r.choice([1, 2, 5, 20, 21, 25, 32, 33, 64, 100, 300]) if r.random() < 0.6 else r.randrange(0, 300)
         enc(bytes(z) + gen.rbytes(r, n))
         dec("1" * z + "".join(r.choice(ALPHA) for _ in range(r.randrange(0, 60))))
-    for s in ["0", "O", "I", "l", "1O", "abc0", " 1", "1 ", "é", "+", "/", "11I", "z" * 40 + "0"]:
+    wide = [chr(ord(c) + k) for c in ALPHA for k in (256, 768)]           # congruent to an alphabet character mod 256
+    for s in ["0", "O", "I", "l", "1O", "abc0", " 1", "1 ", "é", "+", "/", "11I", "z" * 40 + "0"] + wide + ["1" + w for w in wide[:20]] + [w + "2" for w in wide[:20]]:
         dec(s)
         check(s)
     # every version byte x payload lengths
